@@ -18,6 +18,7 @@
 -/
 import PicoSVG.Props.C05
 import PicoSVG.Model.Simplify
+import PicoSVG.Proofs.StrokeP
 
 namespace PicoSVG.Props.C04
 
@@ -109,5 +110,28 @@ theorem split_translucent_differs :
 theorem stroke_above_fill (bg : RGBA α) (fr fg fb fo sr sg sb : α) :
     onto bg (picoStroked 1 fr fg fb fo sr sg sb 1) = ⟨sr, sg, sb, 1⟩ := by
   apply C05.RGBA.ext' <;> simp only [picoStroked, onto, paint, over] <;> ring
+
+/-! ### the pieces on the model of the code -/
+
+/-- C04 (bookkeeping): the fill piece `_stroke` emits carries opacity × fill-opacity as its opacity and fill-opacity 1 —
+    the alpha `picoStroked` assumes for the lower layer -/
+theorem fill_piece_fields (shape : ShapeRec) (d : String)
+    (h1 : (shape.get "opacity").isSome = true) (h2 : (shape.get "fill_opacity").isSome = true) :
+    (SvgObj.strokePieces shape d).1.get "opacity" = some (.f (shape.getF "opacity" * shape.getF "fill_opacity"))
+    ∧ (SvgObj.strokePieces shape d).1.get "fill_opacity" = some (.f 1.0) :=
+  StrokeP.fill_piece shape d h1 h2
+
+/-- … and the outline piece is painted with the stroke paint at opacity × stroke-opacity, fill-opacity 1 — the upper layer -/
+theorem stroke_piece_fields (shape : ShapeRec) (d : String)
+    (h1 : (shape.get "opacity").isSome = true) (h2 : (shape.get "fill_opacity").isSome = true)
+    (h3 : (shape.get "fill").isSome = true) :
+    (SvgObj.strokePieces shape d).2.get "opacity" = some (.f (shape.getF "opacity" * shape.getF "stroke_opacity"))
+    ∧ (SvgObj.strokePieces shape d).2.get "fill" = some (.s (shape.getS "stroke"))
+    ∧ (SvgObj.strokePieces shape d).2.get "fill_opacity" = some (.f 1.0) :=
+  StrokeP.stroke_piece shape d h1 h2 h3
+
+/-- non-vacuity: every shape record the model builds has these fields -/
+example : ((ShapeRec.default "path").get "opacity").isSome = true ∧ ((ShapeRec.default "path").get "fill_opacity").isSome = true
+    ∧ ((ShapeRec.default "path").get "fill").isSome = true := by decide +kernel
 
 end PicoSVG.Props.C04
